@@ -11,6 +11,7 @@ import (
 	"fmt"
 	"hash/fnv"
 	"os"
+	"runtime/debug"
 	"runtime/pprof"
 	"strconv"
 	"strings"
@@ -188,6 +189,14 @@ func scheduleNames(nodes int) []string {
 
 var stopProf = func() {}
 
+func symList(ss []symbol) string {
+	var n []string
+	for _, s := range ss {
+		n = append(n, s.name)
+	}
+	return strings.Join(n, ",")
+}
+
 func hash64(s string) uint64 {
 	h := fnv.New64a()
 	h.Write([]byte(s))
@@ -260,8 +269,12 @@ func main() {
 		replayMode(run, rp)
 	}
 
+	// the live heap is tiny and the garbage rate is high (every derivation on an
+	// IO core takes a 1 KiB buffer out of zap's pool for good): collect less often
+	debug.SetGCPercent(800)
+	reduced8 := pick("With1", "With3", "WithNS", "WithMut", "LazyMut", "Named(a)", "Fields3", "Toggle")
 	reduced10 := pick("With1", "With3", "WithNS", "WithMut", "Lazy1", "LazyMut", "Named(a)", "Named()", "Fields3", "Toggle")
-	reduced6 := pick("With1", "With3", "LazyMut", "Named(a)", "FieldsNS", "Toggle")
+	reduced5 := pick("With1", "LazyMut", "Named(a)", "FieldsNS", "Toggle")
 	var spaces []space
 	for _, sug := range []bool{false, true} {
 		for d := 0; d <= 3; d++ {
@@ -269,11 +282,11 @@ func main() {
 		}
 	}
 	if !run.Thorough() {
-		spaces = append(spaces, space{4, reduced10, "reduced-10", false})
+		spaces = append(spaces, space{4, reduced8, "reduced-8: " + symList(reduced8), false})
 	} else {
-		spaces = append(spaces, space{4, fullSyms, "full", false})
-		spaces = append(spaces, space{4, reduced10, "reduced-10", true})
-		spaces = append(spaces, space{5, reduced6, "reduced-6", false})
+		spaces = append(spaces, space{4, reduced10, "reduced-10: " + symList(reduced10), false})
+		spaces = append(spaces, space{4, reduced10, "reduced-10: " + symList(reduced10), true})
+		spaces = append(spaces, space{5, reduced5, "reduced-5: " + symList(reduced5), false})
 	}
 
 	type item struct {
